@@ -55,7 +55,7 @@ using namespace vf;
 typedef eventpp_verif::Access Access;
 
 // ------------------------------------------------------------------ payload types
-typedef TPayloadT<200> Big;
+typedef TPayloadA16T<200> Big; // its type asks for 16-byte alignment: the queue's raw slots must be placed suitably for every prototype
 typedef TPayloadT<8> Small;
 
 // implicitly constructible from int: void(IntBox) accepts an int argument, void(int) does not accept an IntBox
@@ -92,7 +92,7 @@ inline void fpArgs(Fp & f, long v) { f.shape = 1; f.a = v; }
 inline void fpArgs(Fp & f, const IntBox & v) { f.shape = 1; f.a = v.ok() ? v.v : -999999; }
 inline void fpArgs(Fp & f, const std::string & a, const std::string & b) { f.shape = 2; f.a = fpOf(a); f.b = fpOf(b); }
 inline void fpArgs(Fp & f, const std::vector<int> & v) { f.shape = 3; f.a = hashVec(v); f.b = (long long)v.size(); }
-inline void fpArgs(Fp & f, const Big & p) { f.shape = 4; f.a = p.observe(); }
+inline void fpArgs(Fp & f, const Big & p) { f.shape = 4; f.a = fpOf(p); } // checks the address, then the content
 inline void fpArgs(Fp & f, const Small & p, int v) { f.shape = 5; f.a = p.observe(); f.b = v; }
 inline void fpArgs(Fp & f, const Small & p, long v) { f.shape = 5; f.a = p.observe(); f.b = v; }
 
@@ -333,6 +333,8 @@ struct WorldBase : HSink
 	int pifCursor[NP];
 	int pifApproved, pifExamined, pifPolicy, pifOwn;
 	std::vector<int> pifSlots;
+	int pifFirstAccepted; // lowest prototype index of which the predicate accepted an event in this call (INT_MAX: none)
+	std::vector<int> pifInitial; // the queued events of callable prototypes when processIf began: each must be shown to the predicate
 
 	// slot model (evidence only)
 	std::vector<int> slotKind;
@@ -629,6 +631,7 @@ struct WorldBase : HSink
 		log("  pred e" + num(e.id) + " (" + kKindName[e.kind] + ", P" + num(e.idx) + ") " + fp.str() + " -> " + num(r));
 		if(r) {
 			++pifApproved;
+			if(e.idx < pifFirstAccepted) pifFirstAccepted = e.idx;
 			pending.erase(pending.begin() + (long)pos);
 			e.state = 1;
 			lastEv = found;
@@ -733,6 +736,9 @@ struct WorldBase : HSink
 		int own = 0, foreign = 0; unsigned foreignKinds = 0;
 		for(size_t i = 0; i < pending.size(); ++i) { const MEv & e = events[(size_t)pending[i]]; if((mask >> e.idx) & 1u) ++own; else { ++foreign; foreignKinds |= 1u << e.kind; } }
 		pifOwn = own;
+		pifInitial.clear();
+		pifFirstAccepted = 0x7fffffff;
+		for(size_t i = 0; i < pending.size(); ++i) if((mask >> events[(size_t)pending[i]].idx) & 1u) pifInitial.push_back(pending[i]);
 		count("op.processIf");
 		count((std::string("processIf.predicate.") + kPName[pt]).c_str());
 		if(bitsOf(mask) > 1) count("processIf.predicate_callable_with_several_prototypes");
@@ -749,6 +755,15 @@ struct WorldBase : HSink
 		releaseSlots(pifSlots);
 		if(! dead && ! expectQ.empty()) failMissed("processIf");
 		expectQ.clear();
+		// the predicate is shown every event that was queued when processIf began and whose prototype it is callable with - prototype by
+		// prototype in list order, up to and including the first prototype of which it accepted an event (the pinned implementation ends
+		// the call after the first prototype pass that dispatched something; nothing is demanded about the prototypes listed after that one)
+		for(size_t i = 0; i < pifInitial.size() && ! dead; ++i) {
+			const MEv & e = events[(size_t)pifInitial[i]];
+			if(e.idx > pifFirstAccepted) continue;
+			if(pifInitial[i] > pifCursor[e.idx]) fail("processIf:queued-event-of-callable-prototype-not-examined", "processIf returned without passing queued event e" + num(e.id) + " (" + kKindName[e.kind] + ", prototype " + num(e.idx) + ") to its predicate, which is callable with prototypes " + hex(pifMask));
+		}
+		if(! dead) count("processIf.initial_events_all_examined", (uint64_t)pifInitial.size());
 		if(! dead && r != (pifApproved > 0)) fail("processIf:result", "processIf returned " + num(r) + " after dispatching " + num(pifApproved) + " event(s)");
 		if(pifApproved == 0 && pifOwn > 0) count("processIf.calls_declining_everything");
 		curOp = "idle";
